@@ -19,8 +19,8 @@ REQUIRED_THEOREMS = [
     "read_returns_appended_in_order", "read_returns_appended_from", "refines_run", "items_eq_contents",
     "template_present", "mode_truncate", "mode_truncate_once", "mode_append", "readonly_rejects",
     "mode_unknown_rejects", "start_accepted_iff", "append_accepted_iff", "rejected_keeps_contents",
-    "truncate_once_then_append", "append_mode_never_truncates", "readonly_frozen_partial",
-    "readonly_append_accepted", "bisect_spec", "bisectLeft_sorted", "bisectRight_sorted",
+    "truncate_once_then_append", "append_mode_never_truncates", "readonly_rejects_append", "readonly_frozen",
+    "readonly_disables_writing", "appendOld_readonly_accepted", "srun_castfail", "bisect_spec", "bisectLeft_sorted", "bisectRight_sorted",
     "extract_time_range_is_slice", "extract_time_range_consistent", "extract_time_range_defaults",
     "extract_time_range_empty", "extractFieldPlan_cases", "sliceFrame_blocks", "sliceFrame_exhaustive",
     "extract_field_consistent", "view_field_consistent", "copy_apply_consistent", "mapFrames_applyTo",
@@ -34,7 +34,7 @@ RULE = ("(1) adaptive random operation sequences of length 5-40 over newField/se
         "copy/apply/from_fields/from_collection/direct frame writes, drawn from 8 field profiles (scalar, vector, "
         "tensor, collections with duplicate/missing labels, 1-cell and non-Cartesian grids), all write modes incl. "
         "an unknown one, repeated/unsorted/defaulted time stamps, sessions through StorageTracker objects, a "
-        "malformed stream (writes without data shape, readonly writes, wrong grid/shape, out-of-range reads, bad "
+        "malformed stream (writes without data shape, readonly writes, wrong grid/shape/dtype, out-of-range reads, bad "
         "field ids); distinct by operation list; non-trivial if >= 2 accepted appends of non-constant data, >= 1 "
         "accepted read or derived view and >= 1 mutation, mode transition, truncation or rejected operation. "
         "(2) ALL sequences over a 13-operation alphabet up to length 2-4 per initial write mode; non-trivial if the "
@@ -42,6 +42,9 @@ RULE = ("(1) adaptive random operation sequences of length 5-40 over newField/se
         "lists vs numpy. (4) real solver runs filling one storage through storage.tracker(). (5) get_memory_storage. "
         "(6) 16 template/appended dtype combinations (monitor only)")
 ASSUMPTIONS = [
+    "np.can_cast(field.dtype, storage dtype, 'same_kind') is an abstract flag of the append operation in the model; "
+    "the harness supplies numpy's verdict (int64 sessions exercise the TypeError route; complex/float32 only in the "
+    "monitor-only dtype leg)",
     "numpy copy/view semantics (np.array copies, slicing shares) are observed through np.shares_memory / array bases",
     "the info dictionary shared between a storage and the storages derived from it is outside the model "
     "(extract_field on a derived storage without template is not generated)",
@@ -134,6 +137,7 @@ class Gen:
         self.flags = set()
         self.n_ok_append = 0
         self.n_ok_view = 0
+        self.avoid_s, self.avoid_f = set(), set()   # int64 objects of the dtype-rule stream
 
     # ---- helpers ---------------------------------------------------------------------
     def vals(self, n):
@@ -174,6 +178,8 @@ class Gen:
     def matching_fields(self, st):
         out = []
         for i, f in enumerate(self.world.fields):
+            if i in self.avoid_f:
+                continue
             if st._data_shape is not None and tuple(f.data.shape) != tuple(st._data_shape):
                 continue
             if st._grid is not None and f.grid != st._grid:
@@ -185,7 +191,15 @@ class Gen:
         m = self.matching_fields(st)
         if m and self.rng.random() < valid:
             return self.rng.choice(m)
-        return self.rng.randrange(len(self.world.fields))
+        return self.any_field()
+
+    def any_field(self):
+        ok = [i for i in range(len(self.world.fields)) if i not in self.avoid_f]
+        return self.rng.choice(ok)
+
+    def any_store(self):
+        ok = [i for i in range(len(self.world.stores)) if i not in self.avoid_s]
+        return self.rng.choice(ok)
 
     def next_time(self, st):
         r = self.rng
@@ -235,7 +249,7 @@ class Gen:
             return self.do({"op": "newStore", "mode": r.choice(W.MODES[:3] + ["truncate_once", "truncate_once"])})
         if r.random() < self.p_mal and len(self.ops) + 3 <= self.length:
             return self.malformed()
-        sid = r.randrange(len(w.stores)) if r.random() < 0.3 else self.favourite_store()
+        sid = self.any_store() if r.random() < 0.3 else self.favourite_store()
         st = w.stores[sid]
         kinds = [("append", 30), ("start", 9), ("end", 4), ("clear", 3), ("setMode", 3), ("setField", 12),
                  ("read", 8), ("items", 3), ("slice", 3), ("extractTimeRange", 5), ("extractField", 4),
@@ -281,7 +295,7 @@ class Gen:
             self.flags.add("mode-set")
             return self.do({"op": "setMode", "sid": sid, "mode": r.choice(W.MODES + ["truncate_once", "append"])})
         if k == "setField":
-            fid = r.randrange(len(w.fields))
+            fid = self.any_field()
             f = w.fields[fid]
             self.flags.add("mutation")
             return self.do({"op": "setField", "fid": fid, "vals": self.vals(f.data.size),
@@ -338,7 +352,7 @@ class Gen:
             func = r.choice([{"kind": "ident"}, {"kind": "ident"}, {"kind": "scale", "c": r.choice([2.0, -0.5, 0.0, 4.0])},
                              {"kind": "addTime"}, {"kind": "member", "i": r.randint(0, 2)}])
             out = None
-            others = [i for i in range(len(w.stores)) if i != sid]
+            others = [i for i in range(len(w.stores)) if i != sid and i not in self.avoid_s]
             if others and r.random() < 0.4:
                 out = r.choice(others)
             if self.do({"op": "apply", "sid": sid, "func": func, "out": out, "how": r.choice(["copy", "apply"])}) is None and n:
@@ -349,22 +363,22 @@ class Gen:
         if k == "newStore":
             return self.do({"op": "newStore", "mode": r.choice(W.MODES[:3] + ["truncate_once"])})
         if k == "fromFields":
-            m = self.matching_fields(st) or list(range(len(w.fields)))
+            m = self.matching_fields(st) or [self.any_field()]
             fids = [r.choice(m) for _ in range(r.randint(1, 3))]
             ts = [float(i) for i in range(len(fids))]
             self.flags.add("from-fields")
             return self.do({"op": "fromFields", "times": ts, "fids": fids, "mode": r.choice(W.MODES[:3])})
         if k == "fromCollection":
             cands = [i for i, x in enumerate(w.stores)
-                     if [float(t) for t in x.times] == [float(t) for t in st.times] and
+                     if i not in self.avoid_s and [float(t) for t in x.times] == [float(t) for t in st.times] and
                      not (x._field is None and "field_attributes" in x.info)]
             x = r.random()
             if x < 0.75 and cands:
                 sids = [sid] + [r.choice(cands) for _ in range(r.randint(0, 2))]
             elif x < 0.9:
-                sids = [r.randrange(len(w.stores)) for _ in range(r.randint(0, 3))]
+                sids = [self.any_store() for _ in range(r.randint(0, 3))]
             else:
-                sids = [sid, r.randrange(len(w.stores))]
+                sids = [sid, self.any_store()]
             sids = [i for i in sids if not (w.stores[i]._field is None and "field_attributes" in w.stores[i].info)]
             self.flags.add("from-collection")
             tol = r.choice([(1e-5, 1e-8), (1e-5, 1e-8), (0.5, 0.0), (0.0, 0.25), (0.0, 0.0)])
@@ -382,24 +396,55 @@ class Gen:
 
     def favourite_store(self):
         # concentrate on the storage that holds most frames (ties: the first)
-        best, bn = 0, -1
+        best, bn = self.any_store(), -1
         for i, st in enumerate(self.world.stores):
+            if i in self.avoid_s:
+                continue
             if len(st.times) > bn:
                 best, bn = i, len(st.times)
-        return best if self.rng.random() < 0.7 else 0
+        return best if self.rng.random() < 0.7 else min(i for i in range(len(self.world.stores)) if i not in self.avoid_s)
 
     def malformed(self):
         r, w = self.rng, self.world
-        sid = r.randrange(len(w.stores))
+        sid = self.any_store()
         st = w.stores[sid]
         n = len(st.times)
         c = r.choice(["append-fresh", "readonly-start", "readonly-append", "wrong-field", "read-range",
-                      "bad-field-id", "etr-empty", "unknown-mode", "apply-readonly", "from-fields-bad", "wrong-start"])
+                      "bad-field-id", "etr-empty", "unknown-mode", "apply-readonly", "from-fields-bad", "wrong-start",
+                      "wrong-dtype"])
+        if c == "wrong-dtype" and len(self.ops) + 12 > self.length:
+            c = "append-fresh"
         self.hist("malformed", c)
         self.flags.add("malformed")
         if c == "append-fresh":
             self.do({"op": "newStore", "mode": r.choice(W.MODES)})
-            return self.do({"op": "append", "sid": len(w.stores) - 1, "fid": r.randrange(len(w.fields)), "t": 0})
+            return self.do({"op": "append", "sid": len(w.stores) - 1, "fid": self.any_field(), "t": 0})
+        if c == "wrong-dtype":
+            # the dtype rule: an int64 session refuses float64 data (TypeError) and accepts int64 data; a
+            # float64 session accepts int64 data.  The int64 objects are kept out of the other operations.
+            recipe = {"grid": self.profile["main"]["grid"], "kind": "scalar", "label": "n", "dtype": "int64"}
+            nvals = W.recipe_size(recipe)
+            self.do({"op": "newField", "recipe": recipe, "vals": [float(r.randint(-9, 9)) for _ in range(nvals)]})
+            fint = len(w.fields) - 1
+            self.avoid_f.add(fint)
+            self.do({"op": "newField", "recipe": {**recipe, "dtype": "float64"},
+                     "vals": [r.randint(-9, 9) / 2 for _ in range(nvals)]})
+            fflt = len(w.fields) - 1
+            self.do({"op": "newStore", "mode": r.choice(W.MODES[:3])})
+            sint = len(w.stores) - 1
+            self.avoid_s.add(sint)
+            self.do({"op": "start", "sid": sint, "fid": fint})
+            self.do({"op": "append", "sid": sint, "fid": fflt, "t": 0.0})
+            self.do({"op": "append", "sid": sint, "fid": fint, "t": 1.0})
+            if r.random() < 0.5:
+                self.do({"op": "clear", "sid": sint, "shape": True})     # forgets the dtype ...
+                self.do({"op": "append", "sid": sint, "fid": fflt, "t": 2.0})  # ... RuntimeError (no shape), not TypeError
+            self.do({"op": "items", "sid": sint})
+            self.do({"op": "newStore", "mode": "truncate_once"})
+            sflt = len(w.stores) - 1
+            self.avoid_s.add(sflt)   # will hold an int64 frame: direct writes of non-integers would truncate
+            self.do({"op": "start", "sid": sflt, "fid": fflt})
+            return self.do({"op": "append", "sid": sflt, "fid": fint, "t": 0.0})
         if c in ("readonly-start", "readonly-append"):
             self.do({"op": "setMode", "sid": sid, "mode": "readonly"})
             fid = self.pick_field(st, 1.0)
@@ -413,8 +458,8 @@ class Gen:
         if c in ("wrong-field", "wrong-start"):
             if len(w.fields) < 6:
                 self.new_field(r.choice(self.profile["alts"]))
-            bad = [i for i in range(len(w.fields)) if i not in self.matching_fields(st)]
-            fid = r.choice(bad) if bad else r.randrange(len(w.fields))
+            bad = [i for i in range(len(w.fields)) if i not in self.matching_fields(st) and i not in self.avoid_f]
+            fid = r.choice(bad) if bad else self.any_field()
             if c == "wrong-field":
                 return self.do({"op": "append", "sid": sid, "fid": fid, "t": self.next_time(st)})
             return self.do({"op": "start", "sid": sid, "fid": fid})
@@ -441,7 +486,7 @@ class Gen:
             self.do({"op": "newStore", "mode": r.choice(["readonly", "other"])})
             return self.do({"op": "apply", "sid": sid, "func": {"kind": "ident"}, "out": len(w.stores) - 1})
         if c == "from-fields-bad":
-            fids = [r.randrange(len(w.fields)) for _ in range(r.randint(0, 3))]
+            fids = [self.any_field() for _ in range(r.randint(0, 3))]
             return self.do({"op": "fromFields", "times": [0.0] * r.randint(0, 3), "fids": fids, "mode": "append"})
         return None
 
@@ -965,9 +1010,12 @@ def context_manager_leg(ctx):
 
 
 def dtype_leg(ctx):
-    """monitor only (the Lean model covers float64 fields): sessions whose template dtype and
-    appended dtype are drawn from float64/complex128/float32/int64; reading must return the
-    appended data whatever the combination"""
+    """monitor only (the Lean model treats numpy's cast verdict as an abstract flag): sessions whose
+    template dtype and appended dtype are drawn from float64/complex128/float32/int64.  Since fd5b417
+    an append numpy cannot cast (same_kind) to the dtype of the storage must raise TypeError; an accepted
+    append must read back as the appended data at the precision of the storage (the documented
+    precision: float64 data in a float32 session is compared as float32).  Regression leg for the
+    repaired finding `read-casts-to-template-dtype`."""
     import warnings
     import numpy as np
     from pde import MemoryStorage, ScalarField, UnitGrid
@@ -985,30 +1033,46 @@ def dtype_leg(ctx):
                     vals = [rng.randint(-9, 9) / 4 for _ in range(3)]
                 else:
                     vals = [rng.randint(-9, 9) / 4 + 0.1 for _ in range(3)]
+                castable = bool(np.can_cast(dts[b], dts[a], casting="same_kind"))
                 st = MemoryStorage()
                 st.start_writing(ScalarField(g, np.zeros(3, dtype=dts[a]), dtype=dts[a]))
                 f = ScalarField(g, np.array(vals, dtype=dts[b]), dtype=dts[b])
-                exp = [complex(x) for x in f.data.tolist()]
-                with warnings.catch_warnings():
-                    warnings.simplefilter("ignore")
-                    st.append(f, 0.0)
-                    f.data[...] = 0
-                    got = {"storage.data[0]": [complex(x) for x in st.data[0].tolist()],
-                           "storage[0]": [complex(x) for x in st[0].data.tolist()],
-                           "items()": [complex(x) for x in list(st.items())[0][1].data.tolist()],
-                           "copy()[0]": [complex(x) for x in st.copy()[0].data.tolist()]}
                 case = {"dtype": {"template": a, "appended": b, "vals": [str(v) for v in vals]}}
                 ctx.monitor_evals += 1
                 ctx.count(case, nontrivial=True, leg="dtype")
-                ctx.hist("dtype", f"{a}<-{b}")
+                ctx.hist("dtype", f"{a}<-{b}:{'castable' if castable else 'not-castable'}")
+                key = {"call_site": "StorageBase._get_field", "symptom": "read-casts-to-template-dtype",
+                       "lossless": bool(np.can_cast(dts[b], dts[a], casting="safe"))}
+                with warnings.catch_warnings():
+                    warnings.simplefilter("ignore")
+                    try:
+                        st.append(f, 0.0)
+                        err = None
+                    except Exception as e:  # noqa: BLE001
+                        err = type(e).__name__
+                    if err is not None:
+                        if castable or err != "TypeError" or len(st.times) != 0:
+                            ctx.monitor_fail("dtype", case, {"error": err, "times": list(st.times)},
+                                             {"error": None if castable else "TypeError"},
+                                             "append of castable data was rejected, or with another error class",
+                                             key={"call_site": "StorageBase.append", "symptom": "dtype-rule"})
+                        continue
+                    # accepted: exact data in storage.data, reads at the precision of the storage
+                    exact = [complex(x) for x in f.data.tolist()]
+                    exp = [complex(x) for x in f.data.astype(dts[a]).tolist()] if castable else exact
+                    f.data[...] = 0
+                    got = {"storage[0]": [complex(x) for x in st[0].data.tolist()],
+                           "items()": [complex(x) for x in list(st.items())[0][1].data.tolist()],
+                           "copy()[0]": [complex(x) for x in st.copy()[0].data.tolist()]}
+                    raw = [complex(x) for x in st.data[0].tolist()]
                 wrong = [k for k, v in got.items() if v != exp]
+                if raw != exact:
+                    wrong.append("storage.data[0]")
                 if wrong:
-                    ctx.monitor_fail("dtype", case, {k: [str(x) for x in got[k]] for k in wrong},
+                    ctx.monitor_fail("dtype", case, {k: [str(x) for x in got.get(k, raw)] for k in wrong},
                                      {"data": [str(x) for x in exp]},
-                                     "reading returns the appended data cast to the dtype of the session's template "
-                                     f"({', '.join(wrong)})",
-                                     key={"call_site": "StorageBase._get_field", "symptom": "read-casts-to-template-dtype",
-                                          "lossless": bool(np.can_cast(dts[b], dts[a], casting="safe"))})
+                                     "reading returns something else than the appended data at the precision of the "
+                                     f"storage ({', '.join(wrong)})", key=key)
 
 
 def search(ctx, broken):
@@ -1052,12 +1116,18 @@ def replay(ctx, rep):
         st = MemoryStorage()
         st.start_writing(ScalarField(g, np.zeros(3, dtype=d["template"]), dtype=d["template"]))
         f = ScalarField(g, np.array([complex(v) for v in d["vals"]]).astype(d["appended"]), dtype=d["appended"])
+        castable = bool(np.can_cast(np.dtype(d["appended"]), np.dtype(d["template"]), casting="same_kind"))
         with warnings.catch_warnings():
             warnings.simplefilter("ignore")
-            st.append(f, 0.0)
+            try:
+                st.append(f, 0.0)
+            except Exception as e:  # noqa: BLE001
+                print("append ->", type(e).__name__, e)
+                return (not castable) and type(e).__name__ == "TypeError"
             back = st[0].data
+        exp = f.data.astype(d["template"]) if castable else f.data
         print("appended:", f.data.tolist(), f.data.dtype, "| stored:", st.data[0].tolist(), "| storage[0]:", back.tolist(), back.dtype)
-        return [complex(x) for x in back.tolist()] == [complex(x) for x in f.data.tolist()]
+        return [complex(x) for x in back.tolist()] == [complex(x) for x in exp.tolist()]
     if "solver" in c:
         bad, _steps = solver_case(c["solver"])
         print("solver case:", c["solver"])
